@@ -81,6 +81,28 @@ func RunC07(st *simcore.Stream, tier, leg string, logOn bool, res *simcore.Resul
 		return false
 	}
 
+	// the fresh incarnation keeps retransmitting one and the same InitDone: it is in the middle of a
+	// handshake which the survivor answered and then does not complete (not KF2, KF4 or KF5: there
+	// the fresh side never gets as far as an InitDone)
+	restartedSideRetransmitsInitDone := func() bool {
+		if restartedSide == nil {
+			return false
+		}
+		first := map[uint64]time.Duration{}
+		for _, e := range restartedSide.HSOut {
+			if e.At >= restartAt && e.Counter == 2 && e.Gen == restartedSide.Gen {
+				if t0, ok := first[e.Sum]; !ok {
+					first[e.Sum] = e.At
+				} else if e.At-t0 >= 3*T.Backoff {
+					// the same InitDone again, three handshake intervals later (copies sent at one
+					// instant in reply to duplicated RespHellos do not count)
+					return true
+				}
+			}
+		}
+		return false
+	}
+
 	// at every quiescent point: a Send that is past its bound must have returned
 	w.OnIdleX = func() {
 		if !healed {
@@ -294,6 +316,7 @@ func RunC07(st *simcore.Stream, tier, leg string, logOn bool, res *simcore.Resul
 				With("peerRestarted", restarted).
 				With("survivorKeepsRetransmittingAnUnfinishedHandshake", survivorStuckInOldHandshake()).
 				With("aResponderKeepsAnsweringAHandshakeThePeerGaveUp", responderAnswersAbandonedHandshake()).
+				With("restartedSideRetransmitsInitDone", restartedSideRetransmitsInitDone()).
 				With("sendOnRestartedSide", restartedSide != nil && r.Side == restartedSide && r.Gen == r.Side.Gen).
 				With("recoveredOnceOldSessionsExpired", recovered).
 				With("recoveredWithinTwoExpiryRounds", recovered2)
